@@ -1,5 +1,5 @@
 """Thin wrappers around TLC / SANY. A TLC exception or timeout is a tool error (exit 2), never a verdict."""
-import json, os, re, shutil, subprocess, time
+import json, os, re, shutil, subprocess, time, zlib
 
 VERIF = os.path.dirname(os.path.dirname(os.path.abspath(__file__)))
 SPEC = os.path.join(VERIF, 'spec')
@@ -44,11 +44,12 @@ def write_cfg(path, spec='Spec', constants=None, invariants=(), properties=(), c
     open(path, 'w').write('\n'.join(lines) + '\n')
 
 
+REPLAY = re.compile(r'^<<"REPLAY", (".*")>>\s*$')
 STATS = re.compile(r'^(\d+) states generated, (\d+) distinct states found, (\d+) states left on queue', re.M)
 
 
 def run_tlc(module, cfg, wd, workers=4, timeout=1800, env=None, simulate=None, depth=None, extra=(), java_opts='-Xss1g',
-            seed=None):
+            seed=None, collect_replays=None, sample_mod=1):
     """Run TLC; returns dict(out, states, distinct, wall, rc). Raises ToolError on timeout / TLC exception."""
     e = dict(os.environ)
     e['JAVA_TOOL_OPTIONS'] = java_opts
@@ -64,24 +65,50 @@ def run_tlc(module, cfg, wd, workers=4, timeout=1800, env=None, simulate=None, d
         cmd += ['-seed', str(seed)]
     cmd += list(extra) + [os.path.join(SPEC, module)]
     t0 = time.time()
-    try:
-        p = subprocess.run(cmd, cwd=wd, env=e, stdout=subprocess.PIPE, stderr=subprocess.STDOUT, timeout=timeout, text=True)
-    except subprocess.TimeoutExpired:
-        raise ToolError(f'TLC timed out after {timeout}s: {" ".join(cmd)}')
-    out = p.stdout
+    behaviours = None
+    if collect_replays is None:
+        try:
+            p = subprocess.run(cmd, cwd=wd, env=e, stdout=subprocess.PIPE, stderr=subprocess.STDOUT, timeout=timeout, text=True)
+        except subprocess.TimeoutExpired:
+            raise ToolError(f'TLC timed out after {timeout}s: {" ".join(cmd)}')
+        out = p.stdout
+        rc = p.returncode
+    else:
+        # generator mode: stream the output, keep distinct REPLAY lines only (at most collect_replays of them; in
+        # -simulate mode TLC is stopped once enough behaviours were printed)
+        behaviours, seen, other = [], set(), []
+        p = subprocess.Popen(cmd, cwd=wd, env=e, stdout=subprocess.PIPE, stderr=subprocess.STDOUT, text=True, bufsize=1 << 20)
+        stopped = False
+        for line in p.stdout:
+            if line.startswith('<<"REPLAY", '):
+                m = REPLAY.match(line)
+                if m:
+                    h = hash(line)
+                    if h not in seen and (sample_mod <= 1 or zlib.crc32(line.encode()) % sample_mod == 0):
+                        seen.add(h)
+                        behaviours.append(json.loads(m.group(1)))
+                        if len(behaviours) >= collect_replays:
+                            stopped = True
+                            p.kill()
+                            break
+            else:
+                other.append(line)
+            if time.time() - t0 > timeout:
+                p.kill()
+                raise ToolError(f'TLC timed out after {timeout}s: {" ".join(cmd)}')
+        p.wait()
+        out = ''.join(other)
+        rc = 0 if stopped else p.returncode
     wall = time.time() - t0
     shutil.rmtree(os.path.join(wd, 'states'), ignore_errors=True)
     m = STATS.search(out)
-    res = dict(out=out, rc=p.returncode, wall=wall, states=int(m.group(1)) if m else 0, distinct=int(m.group(2)) if m else 0)
+    res = dict(out=out, rc=rc, wall=wall, behaviours=behaviours, states=int(m.group(1)) if m else 0, distinct=int(m.group(2)) if m else 0)
     if 'TLC threw an unexpected exception' in out or 'Error: Parsing or semantic analysis failed' in out \
             or 'java.lang.' in out and 'Exception' in out and 'Error:' in out and 'is violated' not in out:
         open(os.path.join(wd, 'tlc_error.out'), 'w').write(out)
         raise ToolError('TLC failed (tool error, not a verdict); output in ' + os.path.join(wd, 'tlc_error.out') + '\n'
                         + '\n'.join(l for l in out.splitlines() if not l.startswith(('Parsing', 'Semantic', 'Linting')))[-3000:])
     return res
-
-
-REPLAY = re.compile(r'^<<"REPLAY", (".*")>>\s*$')
 
 
 def behaviours_from_output(out):
